@@ -34,7 +34,7 @@ ASSUMPTIONS = [
     'files used',
     'exceptions compare by type; digests cover public attributes only',
 ]
-KINDS = {'bfs': (16, 32, 1), 'hist_dwarf': (48, 1200, 2), 'hist_elf': (48, 1200, 2)}
+KINDS = {'bfs': (16, 32, 1), 'hist_dwarf': (48, 1200, 2), 'hist_elf': (48, 1200, 2), 'hist_cfi': (60, 1500, 4)}
 FLOOR = {'quick': 5000, 'thorough': 100000}
 CASE_TIMEOUT = 3000
 STEP_BUDGET = 2000000000
@@ -720,14 +720,80 @@ def run_hist_elf(idx, rng, sh):
     sh.sample({'mode': 'elf-history', 'file': name, 'operations': len(hist), 'last': [list(o) for o in hist[-5:]]}, kind='hist_elf')
 
 
+def run_hist_cfi(idx, rng, sh):
+    """Call-frame entries: decoding one entry must not change what decoding another one (or the same one again,
+    or an object returned earlier) shows. Entries of one CIE share that CIE's decoded table."""
+    from ..gen import cfigen
+    eh = rng.random() < 0.5
+    le = rng.random() < 0.5
+    asz = rng.choice([4, 8])
+    sec, items, secaddr = cfigen.gen_section(rng, le, asz, eh)
+    name = '.eh_frame' if eh else '.debug_frame'
+    secs = {name: sec, '.debug_info': b'\0' * 16, '.debug_abbrev': b'\0'}
+
+    def entries():
+        di, streams = G.make_dwarfinfo(secs, le, TracedBytesIO, default_address_size=asz, addresses={name: secaddr})
+        return (di.EH_CFI_entries() if eh else di.CFI_entries()), list(streams.values())
+
+    def tdig(t):
+        return (tuple(tuple(sorted((str(k), repr(v)) for k, v in row.items())) for row in t.table), tuple(t.reg_order))
+
+    def apply(ents, op):
+        k, i = op
+        try:
+            e = ents[i]
+            if k == 'decode':
+                return tdig(e.get_decoded()) if hasattr(e, 'get_decoded') else None
+            if k == 'instr':
+                return tuple((x.opcode, repr(x.args)) for x in getattr(e, 'instructions', ()))
+            if k == 'cie':
+                c = getattr(e, 'cie', None)
+                return None if c is None else (c.offset, tdig(c.get_decoded()))
+        except Exception as ex:
+            return ('EXC', type(ex).__name__)
+    try:
+        ents, st = entries()
+    except Exception:
+        sh.skip('section not enumerable')
+        return
+    if not ents:
+        sh.held(sig=None)
+        return
+    fresh = {}
+    held = []          # (op, object returned earlier, its digest then)
+    hist = []
+    for step in range(rng.choice([20, 60])):
+        op = (rng.choice(['decode', 'decode', 'instr', 'cie']), rng.randrange(len(ents)))
+        poison(st, rng)
+        got = apply(ents, op)
+        if op not in fresh:
+            fe, _ = entries()
+            fresh[op] = apply(fe, op)
+        if got != fresh[op]:
+            sh.note_violation('C10:call-frame answer differs from the fresh-object answer (%s)' % op[0], op=op, history=hist[-10:],
+                              got=repr(got)[:300], fresh=repr(fresh[op])[:300], eh=eh)
+            return
+        if op[0] == 'decode' and hasattr(ents[op[1]], 'get_decoded') and not (isinstance(got, tuple) and got[:1] == ('EXC',)):
+            held.append((op, ents[op[1]].get_decoded(), got))
+        hist.append(op)
+    for op, obj, then in held:
+        if tdig(obj) != then:
+            sh.note_violation('C10:a decoded call-frame table returned earlier changed afterwards', op=op, history=hist[-10:], eh=eh)
+            return
+    sh.held(n=len(hist))
+    sh.count('cfi_history_operations', len(hist))
+    sh.sig(('hist_cfi', eh, le, asz, min(len(ents), 6)))
+    sh.sample({'mode': 'cfi-history', 'section': name, 'entries': len(ents), 'operations': len(hist)}, kind='hist_cfi')
+
+
 def run_case(kind, idx, rng, sh):
-    {'bfs': run_bfs, 'hist_dwarf': run_hist_dwarf, 'hist_elf': run_hist_elf}[kind](idx, rng, sh)
+    {'bfs': run_bfs, 'hist_dwarf': run_hist_dwarf, 'hist_elf': run_hist_elf, 'hist_cfi': run_hist_cfi}[kind](idx, rng, sh)
 
 
 def finish(m, tier, seed):
     c = m['counters']
     return {'states': max(1, c.get('bfs_states', 0)), 'transitions': max(1, c.get('bfs_transitions', 0) + c.get('dwarf_history_operations', 0) +
-                                                                          c.get('elf_history_operations', 0)),
+                                                                          c.get('elf_history_operations', 0) + c.get('cfi_history_operations', 0)),
             'traces_validated_against_impl': c.get('bfs_transitions', 0) + c.get('dwarf_history_operations', 0) + c.get('elf_history_operations', 0),
             'exhaustive': False,
             'explanation': 'states = distinct abstract cache states reached by breadth-first search on the small files; every '
